@@ -429,10 +429,24 @@ func c18Run(s *Shard) {
 	sampled := false
 	for _, method := range allMethods {
 		for _, subset := range []bool{false, true} {
-			for variant := 0; variant < 4; variant++ { // observed range, declared range, c1 strictly negative, types left out
+			for variant := 0; variant < 5; variant++ { // observed range, declared range, c1 strictly negative, types left out, weights at 1e-10 scale
 				root := rootRequest(method, subset, variant == 1)
 				if variant == 2 {
 					root = negativeVariant(root)
+				}
+				if variant == 4 {
+					switch method {
+					case "weightedSum", "majorityHeuristic", "aspectEliminationHeuristic":
+						for k, v := range asM(asM(root["methodParameters"])["weights"]) {
+							asM(asM(root["methodParameters"])["weights"])[k] = asF(v) * 1e-10
+						}
+					case "electreIII":
+						for _, e := range asM(asM(root["methodParameters"])["electreCriteria"]) {
+							asM(e)["k"] = asF(asM(e)["k"]) * 1e-10
+						}
+					default:
+						continue
+					}
 				}
 				if variant == 3 {
 					if method == "choquetIntegral" {
